@@ -20,7 +20,7 @@ import refstore
 PID = 'C05'
 FAM = {s.sid: s for s in S.family_F()}
 FAM['A1'] = apibfs.A1
-FAM['S5'] = Schema('S5', [Opt('str', 's', '', b'd'), Opt('str', 'sl', 'L', [b'a']), Opt('int', 'i', '', 5), Opt('float', 'f', '', 1.5), Opt('bool', 'b', '', True),
+FAM['S5'] = Schema('S5', [Opt('str', 'sv', 'S'), Opt('int', 'iv', 'S'), Opt('str', 's', '', b'd'), Opt('str', 'sl', 'L', [b'a']), Opt('int', 'i', '', 5), Opt('float', 'f', '', 1.5), Opt('bool', 'b', '', True),
                           Opt('sec', 'mt', 'MT', sub=[Opt('str', 'v', '', b'x'), Opt('int', 'l', 'L', [b'1'])]), Opt('sec', 'sec', '', sub=[Opt('str', 'w', '', b'y')]),
                           Opt('sec', 'kv', 'K', sub=[Opt('str', 'k0', '', b'v0')])])      # kv: free-form, its keys come from the text
 PRINTABLE = ['F01', 'F02', 'F03', 'F04', 'F05', 'F06', 'F07', 'F09', 'F10', 'F11', 'F15', 'F16', 'F18']
@@ -29,7 +29,7 @@ CM = CFGF['COMMENTS']
 
 
 def rt_lines(sid, flags):
-    return ['init B %s %d' % (sid, flags), 'roundtrip A B', 'dump A 16', 'dump B 16', 'init C %s %d' % (sid, flags), 'roundtrip B C',
+    return ['init B %s %d' % (sid, flags), 'dump A 16', 'roundtrip A B', 'dump B 16', 'init C %s %d' % (sid, flags), 'roundtrip B C',
             'init D %s %d' % (sid, flags), 'roundtrip C D']
 
 
@@ -142,8 +142,13 @@ def place(pos, val):
         # the byte string as a key of the free-form section (written as a double-quoted literal)
         lit = b'"' + val.replace(b'\\', b'\\\\').replace(b'"', b'\\"').replace(b'$', b'\\$') + b'"'
         return ['parse_buf A ' + enc(b'kv { ' + lit + b' = v1 second = v2 }')]
+    if pos == 'simple':
+        # a 'simple' option: the string lives in the caller's variable
+        return ['setstr A %s %s' % (enc(b'sv'), enc(val)), 'setint A %s 7' % enc(b'iv')]
     if pos == 'annotation':
-        return ['setcomment A %s %s' % (enc(b's'), enc(val)), 'setcomment A %s %s' % (enc(b'sl'), enc(val))]
+        # on top-level options and on options one level down (printed indented)
+        return ['setcomment A %s %s' % (enc(b's'), enc(val)), 'setcomment A %s %s' % (enc(b'sl'), enc(val)), 'addtsec A %s %s' % (enc(b'mt'), enc(b't')),
+                'setcomment A %s %s' % (enc(b'mt=t|v'), enc(val)), 'setcomment A %s %s' % (enc(b'sec|w'), enc(val))]
     raise ValueError(pos)
 
 
@@ -204,15 +209,15 @@ def main():
     engine.build(['asan'])
     quick = ck.tier == 'quick'
     dl = ck.deadline
-    positions = ['scalar', 'list', 'title', 'nested', 'annotation', 'key']
+    positions = ['scalar', 'list', 'title', 'nested', 'annotation', 'key', 'simple']
     singles = [bytes([b]) for b in range(1, 256)]
-    engine.phase(ck, 'all 255 single bytes at 6 positions', shard_strings, [(positions, list(ch), dl) for ch in engine.chunks(singles, 8)], values=255)
+    engine.phase(ck, 'all 255 single bytes at 7 positions', shard_strings, [(positions, list(ch), dl) for ch in engine.chunks(singles, 8)], values=255)
     L = 3 if quick else 4
     strs = []
     for n in range(2, L + 1):
         strs += [b''.join(t) for t in itertools.product(META, repeat=n)]
     strs += [b'${HOME}', b'a${HOME}b', b'${X:-d}', b'$' + b'{', b'\\"', b'"\\', b'/*', b'*/', b'x*/y', b'a\n*/\nb', b'//', b'# c', b'', b' lead', b'trail ', b'\\n', b"it's", b'ti"tle']
-    engine.phase(ck, 'all strings of length 2..%d over %d meta characters at 6 positions' % (L, len(META)), shard_strings,
+    engine.phase(ck, 'all strings of length 2..%d over %d meta characters at 7 positions' % (L, len(META)), shard_strings,
                  [(positions, list(ch), dl) for ch in engine.chunks(strs, 12 if quick else 200)], values=len(strs))
     engine.phase(ck, 'boundary numbers, negative zero, empty lists / strings / titles', shard_numbers, [dl])
     N = 6 if quick else 8
@@ -224,7 +229,10 @@ def main():
         for ch in engine.chunks(frontier, 6):
             shards.append((sid, N, ch, dl))
     engine.phase(ck, 'states reached by accepted E1 texts N=%d' % N, shard_e1, shards, schemas=len(PRINTABLE))
-    ops = [o for o in apibfs.ops_alphabet()]
+    # a setter handed the NULL that the getter returns for a missing element stores a NULL string; NULL is not a string the text
+    # can denote (the statement speaks of strings byte-for-byte), so the getter-to-setter operations stay with C07 / C09 (where the
+    # store model says which of them are defined); the states they reach otherwise are those of the plain string setters
+    ops = [o for o in apibfs.ops_alphabet() if o[0] != 'setfrom']
     shards = [(s, [f], ops, dl) for s in apibfs.STARTS for f in ops]
     engine.phase(ck, 'states reached by <= 2 API calls from %d start states' % len(apibfs.STARTS), shard_api, shards, operations=len(ops))
     if not quick:
